@@ -136,6 +136,20 @@ def make_object(c: Ctx, t: str, p=0.5):
         attrs.pop('dimension', None)
         attrs.pop('axis', None)
         same_count(c, t, attrs, ctrl)
+        if any(k in attrs for k in ctrl) and maybe(r, 0.3):
+            # multidimensional samples with one common shape
+            dims = r.choice([[2], [2, 3], [2, 2, 2]])
+            n = len(as_list(_value_of(attrs[[k for k in ctrl if k in attrs][0]])))
+            for k in ctrl:
+                if k in attrs:
+                    cnt = [0]
+
+                    def cube(d):
+                        if not d:
+                            cnt[0] += 1
+                            return float(cnt[0]) * 1.25
+                        return [cube(d[1:]) for _ in range(d[0])]
+                    attrs[k] = _wrap_like(attrs[k], [cube(dims) for _ in range(n)])
         if any(k in attrs for k in ctrl) and c.avoid.get('cm_dimension_empty'):
             for k in ctrl:
                 attrs.pop(k, None)
@@ -164,6 +178,19 @@ def make_object(c: Ctx, t: str, p=0.5):
                     new = [gen.gen_int(r) for _ in range(n)]
                 else:
                     new = [gen.gen_float(r) for _ in range(n)]
+            # multidimensional values: each of the n samples is itself an array (1 or 2 further levels of nesting)
+            if maybe(r, 0.3) and not isinstance(new[0], str) and (t == 'computation' or nz is not None):
+                dims = r.choice([[2], [3], [2, 3], [3, 2], [1, 4], [2, 2, 2]])
+                cnt = [0]
+
+                def cube(d):
+                    if not d:
+                        cnt[0] += 1
+                        return float(cnt[0]) + 0.5 if isinstance(new[0], float) else cnt[0]
+                    return [cube(d[1:]) for _ in range(d[0])]
+                new = [cube(dims) for _ in range(len(new))]
+                if maybe(r, 0.3):
+                    attrs['dimension'] = list(dims)
             attrs['values'] = _wrap_like(vals, new)
     elif t == 'splice':
         if 'input_channels' in attrs and 'zones' in attrs:
